@@ -1243,6 +1243,29 @@ mut("C19", "caret-not-an-operator", "R19-7|tools::is_arithmetic|classification",
 mut("C19", "classification-ends-anywhere", "R19-7|tools::is_arithmetic|classification", "the closing class of the line pattern admits `|`",
     (TL, 'r"^[ 0-9\\.\\(\\)\\+\\-\\*/\\^]+[\\.0-9 \\)]$"', 'r"^[ 0-9\\.\\(\\)\\+\\-\\*/\\^]+[\\.0-9 \\)|]$"'))
 
+mut("C15", "result-list-cleared-per-line", "R15-7|scripting::run_exp|shrinks|cr_list",
+    "run_exp clears its result list before appending each line's results",
+    (SC, """            cr_list.append(&mut _cr_list);
+            if let Some(last) = cr_list.last() {""", """            if !capture {
+                cr_list.clear();
+            }
+            cr_list.append(&mut _cr_list);
+            if let Some(last) = cr_list.last() {"""))
+mut("C18", "busy-error-only-logged", "R18-5|history::add_raw|silent-failure",
+    "a failing INSERT is only written to the log file",
+    (H, """        Err(e) => println_stderr!("cicada: history: save error: {}", e),
+    }
+}
+
+pub fn add(""", """        Err(_e) => {}
+    }
+}
+
+pub fn add("""))
+mut("C17", "assignment-head-via-is-env", "R17-4|name-shape|7a", "parse_line asks tools::is_env whether a word is an assignment head",
+    (P, """                let is_an_env = libs::re::re_contains(&token, r"^[a-zA-Z0-9_]+=.*$");""",
+     """                let is_an_env = tools::is_env(&token);"""))
+
 # ------------------------------------------------------------------ more refactors
 ref("history-params-vec", ["C18"], "bind the INSERT parameters through a params! style slice",
     (H, "    match conn.execute(&sql, [line.trim(), info.as_str()]) {",
